@@ -104,3 +104,30 @@ def max_timeframe_table(repo):
     if d['order'][-1] != d['default']:
         raise ValueError(f"the default {d['default']} is not the smallest timeframe of the order {d['order']}")
     return order, d['default'], f"{d['evaluated']} subsets evaluated"
+
+
+_TABLES = r"""
+import sys, json, warnings
+warnings.filterwarnings('ignore')
+repo = sys.argv[1]; sys.path.insert(0, repo)
+from jesse import utils
+import jesse.modes.backtest_mode as bm
+from jesse.enums import timeframes as TF
+tfs = [v for k, v in vars(TF).items() if not k.startswith('_') and isinstance(v, str)]
+out = {'utils': [], 'bt': [], 'anchor': []}
+for t in tfs:
+    out['utils'].append([t, int(utils.timeframe_to_one_minutes(t))])
+    if t in bm.timeframe_to_one_minutes: out['bt'].append([t, int(bm.timeframe_to_one_minutes[t])])
+    try: out['anchor'].append([t, str(utils.anchor_timeframe(t))])
+    except KeyError: pass
+print(json.dumps(out))
+"""
+
+
+def timeframe_tables(repo):
+    """the three timeframe tables of the CURRENT source, read off the running functions on every timeframe of jesse.enums.timeframes (their
+    whole domain); raises ValueError when the evaluation itself fails (the caller then fails closed)"""
+    d = _run(_TABLES, repo)
+    if 'error' in d:
+        raise ValueError(str(d['error']))
+    return d
